@@ -112,6 +112,17 @@ def same(R, have, want, exact=False, tol=1e-8, trunc=True):
     (Q, MaxTimes) are compared exactly OR within 1e-11; trunc=False (automaton operations): strictly exact."""
     from rv.core import close
 
+    if R == "Log" and hasattr(have, "score"):
+        # log-weights are compared in log space: a weight of exp(-40) matters as much as one of 0.5
+        wv = want_value(R, want)
+        try:
+            sc = float(have.score)
+            if wv == 0:
+                return sc == -math.inf
+            lw = (math.log(wv.numerator) - math.log(wv.denominator)) if hasattr(wv, "numerator") else math.log(float(wv))
+            return abs(sc - lw) <= max(1e-6, 10 * tol)
+        except (TypeError, ValueError, OverflowError):
+            return False
     h, w = have_value(R, have), want_value(R, want)
     if R in ("Poly",):
         return h == w
@@ -269,20 +280,43 @@ def dense_from_wfsa(A, R, exact_floats=True):
 # ---------------------------------------------------------------------------
 # transducers
 def build_fst(t, R):
+    """Library transducer for case t.  t['build'] chooses how it is assembled: 'add' (add_arc), 'set' (set_arc for
+    the first arc of every (source, label, target), add_arc for parallel repeats) or 'union' (two transducers over
+    the same states holding alternate arcs / initial / final weights, joined with +)."""
     from genlm.grammar import FST
 
     Rcls = SR.BY_NAME[R]
-    F = FST(Rcls)
     names = t["names"]
-    for q in names:
-        F.add_state(q)
-    for i, w in t["start"]:
-        F.add_I(names[i], lib_weight(R, w, 0))
-    for i, w in t["stop"]:
-        F.add_F(names[i], lib_weight(R, w, 0))
-    for idx, (i, ab, j, w) in enumerate(t["arcs"]):
-        F.add_arc(names[i], (ab[0], ab[1]), names[j], lib_weight(R, w, idx))
-    return F
+    how = t.get("build", "add")
+
+    def part(arcs, start, stop, use_set):
+        F = FST(Rcls)
+        if how != "union":
+            for q in names:
+                F.add_state(q)
+        for i, w in start:
+            F.add_I(names[i], lib_weight(R, w, 0))
+        for i, w in stop:
+            F.add_F(names[i], lib_weight(R, w, 0))
+        seen = set()
+        for idx, (i, ab, j, w) in arcs:
+            key = (i, ab[0], ab[1], j)
+            if use_set and key not in seen:
+                F.set_arc(names[i], (ab[0], ab[1]), names[j], lib_weight(R, w, idx))
+            else:
+                F.add_arc(names[i], (ab[0], ab[1]), names[j], lib_weight(R, w, idx))
+            seen.add(key)
+        return F
+
+    arcs = list(enumerate(t["arcs"]))
+    if how == "union" and len(t["start"]) >= 1 and t["n"] >= 1:
+        # a disjoint union only equals the original machine if the two halves share no state: split by connected
+        # pieces is not possible in general, so use the trivial split (everything | nothing) half of the time and
+        # otherwise put the machine on the right-hand side of the union
+        empty = FST(Rcls)
+        full = part(arcs, t["start"], t["stop"], False)
+        return (full + empty) if len(arcs) % 2 else (empty + full)
+    return part(arcs, t["start"], t["stop"], how == "set")
 
 
 def fst_ref(t, R):
